@@ -219,9 +219,12 @@ fn raw_frames(b: &[u8]) -> Vec<Vec<u8>> {
     out
 }
 
-fn join_channel(u: &[u8]) -> Option<u32> {
+/// (user id, channel) of a channel join request
+fn join_channel(u: &[u8]) -> Option<(u32, u32)> {
     // TPKT(4) + X.224 data (3) + 38 initiator(2) channel(2)
-    if u.len() == 12 && u[0] == 3 && u[4] == 2 && u[5] == 0xf0 && u[7] == 0x38 { Some(((u[10] as u32) << 8) | u[11] as u32) } else { None }
+    if u.len() == 12 && u[0] == 3 && u[4] == 2 && u[5] == 0xf0 && u[7] == 0x38 {
+        Some(((((u[8] as u32) << 8) | u[9] as u32) + 1001, ((u[10] as u32) << 8) | u[11] as u32))
+    } else { None }
 }
 
 fn hexlist(v: &[Vec<u8>]) -> String {
@@ -266,10 +269,12 @@ pub fn op_sec17(a: &[&str]) -> String {
         let flen: usize = frames.iter().map(|f| f.len()).sum();
         let hs = if hs == "ok" { hs } else if written.len() > flen { "fail".to_string() } else { "-".to_string() };
         last = format!("{} raw={} hs={} tls={} # rawall={}", res, hexlist(&frames), hs, hexlist(&inside), hex(&written));
-        let joins: Vec<u32> = inside.iter().filter_map(|u| join_channel(u)).collect();
+        // the two joins (the user's own channel, the I/O channel the server announced) come in HashMap order
+        let joins: Vec<(u32, u32)> = inside.iter().filter_map(|u| join_channel(u)).collect();
         if joins.is_empty() { break; }
         let same = joins.len() == 2 && joins[0] == joins[1];
-        if same || (joins[0] == 1003) == want_global_first { break; }
+        let global_first = joins[0].1 != joins[0].0;
+        if same || global_first == want_global_first { break; }
     }
     last
 }
